@@ -11,7 +11,8 @@ WRITE_UN = ['PreIncrement', 'PostIncrement', 'PreDecrement', 'PostDecrement']
 TARGETS = ['direct', 'index', 'member', 'tuple', 'paren', 'other_name']
 MEMBERS = ['constructor', 'public_function', 'internal_function', 'modifier', 'free_function', 'fallback', 'library_function']
 VAR_KINDS = [('uint256', None, False), ('address', None, True), ('uint256', 'constant', True), ('uint256', 'immutable', False),
-             ('mapping', None, False), ('string', None, False), ('user', None, False), ('bool', None, False)]
+             ('mapping', None, False), ('string', None, False), ('user', None, False), ('bool', None, False),
+             ('address_payable', None, False), ('bytes32', None, False), ('int256', None, False), ('uint8', None, False), ('bytes', None, False)]
 QUICK_STMT_POS = ['statement', 'if_body', 'for_update', 'call_argument', 'power_exponent', 'catch_body', 'unchecked_block',
                   'prefix_increment_operand', 'ternary_branch', 'initialiser']
 
@@ -199,7 +200,7 @@ def body(chk):
     n = len(all_cases(chk))
     idx = list(range(n))
     if chk.quick and n > 900:
-        core = [i for i, (l, _) in enumerate(all_cases(chk)) if l.startswith(('two params', 'two functions')) or ('no write, ctor=' in l and l.startswith('x:ui'))]
+        core = [i for i, (l, _) in enumerate(all_cases(chk)) if l.startswith(('two params', 'two functions')) or ('no write, ctor=' in l and l.startswith(('x:ui', 'x:ad', 'x:by', 'x:in')))]
         chk.rng.shuffle(idx)
         idx = sorted(set(idx[:900]) | set(core))
     chk.bounds = {'files': '%d of %d x 4 detectors' % (len(idx), n),
